@@ -130,6 +130,44 @@ func genShapes(repo string) {
 	if len(attempts) == 0 || len(consts) == 0 {
 		fail("CheckReferFile / calcMatchStrScore not found")
 	}
+	// class closure: order of "mark visited" / "expand parents" / "expand alias" in getClassTypeInfoList
+	var closureOrder []string
+	af, err := parser.ParseFile(fset, filepath.Join(repo, "langserver/check/check_lsp_annotate.go"), nil, 0)
+	if err != nil {
+		fail("parse check_lsp_annotate.go: %v", err)
+	}
+	for _, d := range af.Decls {
+		fd, ok := d.(*ast.FuncDecl)
+		if !ok || fd.Name.Name != "getClassTypeInfoList" {
+			continue
+		}
+		ast.Inspect(fd.Body, func(n ast.Node) bool {
+			switch x := n.(type) {
+			case *ast.AssignStmt:
+				if len(x.Lhs) == 1 {
+					if se, ok := x.Lhs[0].(*ast.SelectorExpr); ok && se.Sel.Name == "List" {
+						if id, ok := se.X.(*ast.Ident); ok && id.Name == "repeatTypeList" {
+							closureOrder = append(closureOrder, "mark")
+						}
+					}
+				}
+			case *ast.RangeStmt:
+				if se, ok := x.X.(*ast.SelectorExpr); ok && se.Sel.Name == "ParentNameList" {
+					closureOrder = append(closureOrder, "parents")
+				}
+			case *ast.CallExpr:
+				if se, ok := x.Fun.(*ast.SelectorExpr); ok && se.Sel.Name == "getInLineAllNormalAnnotateClass" {
+					closureOrder = append(closureOrder, "alias")
+				}
+			}
+			return true
+		})
+	}
+	if len(closureOrder) == 0 {
+		fail("getClassTypeInfoList not found")
+	}
+	b.WriteString("/-- getClassTypeInfoList: order of marking a declaration visited / expanding its parents / its alias target -/\n")
+	b.WriteString("def closureOrder : List String := " + leanStrList(closureOrder) + "\n\n")
 	b.WriteString("/-- CheckReferFile: the look-up calls in source order, and the path literals it appends -/\n")
 	b.WriteString("def referAttempts : List String := " + leanStrList(attempts) + "\n")
 	b.WriteString("def referLiterals : List String := " + leanStrList(lits) + "\n\n")
